@@ -40,6 +40,7 @@ func registerIntrinsics(p *Program) {
 	registerStringsPkg(p)
 	registerEnv(p)
 	registerMisc(p)
+	registerSort(p)
 	registerRegen(p)
 	registerData(p)
 	registerIntertx(p)
